@@ -74,6 +74,17 @@ fn elem_class(f: FieldId, class: usize, r: &mut Rnd) -> (Vec<u8>, bool) {
             // top bit set on an otherwise small value (Field255 masks only when *sampling*)
             (BigUint::one() << (8 * sz - 1), f != FieldId::F255 && (BigUint::one() << (8 * sz - 1)) < p)
         }
+        8 => {
+            // not below the modulus, spread over the whole non-canonical band [p, 2^(8·size)): for
+            // Field255 a canonical value with bit 255 set (what a masking parser would let through),
+            // elsewhere p + random
+            if f == FieldId::F255 {
+                ((BigUint::from_bytes_le(&r.bytes(sz + 8)) % &p) + (BigUint::one() << 255usize), false)
+            } else {
+                let band = &full + 1u32 - &p;
+                (&p + (BigUint::from_bytes_le(&r.bytes(sz + 8)) % band), false)
+            }
+        }
         _ => (BigUint::from_bytes_le(&r.bytes(sz + 8)) % &p, true),
     };
     let canon = if class == 6 { v < p } else { canon };
@@ -111,7 +122,7 @@ pub fn build_from_layout(pieces: &[Piece], seed: u64, bad16: u64) -> Built {
                 // a handful of edge positions, the rest random canonical
                 for _ in 0..*n {
                     let (b, canon) = if elem_idx == bad_elem_index {
-                        let cls = [3usize, 4, 5, 3][r.below(4)];
+                        let cls = [3usize, 4, 5, 3, 6, 8, 8, 8][r.below(8)];
                         let (b, c) = elem_class(*f, cls, &mut r);
                         (b, c)
                     } else if r.chance(1, 8) {
@@ -337,7 +348,7 @@ pub fn build_pop_state(seed: u64, bad16: u64) -> (Built, Option<PopStateKind>) {
     out.extend_from_slice(&declared.to_be_bytes());
     let bad_elem = if defect == 4 && n > 0 { r.below(n) } else { usize::MAX };
     for i in 0..n {
-        let (b, canon) = if i == bad_elem { elem_class(f, [3, 4, 5][r.below(3)], &mut r) } else { elem_class(f, 7, &mut r) };
+        let (b, canon) = if i == bad_elem { elem_class(f, [3, 4, 5, 6, 8, 8][r.below(6)], &mut r) } else { elem_class(f, 7, &mut r) };
         if !canon {
             reject("output share element not below the modulus", &mut expect, &mut why);
         }
